@@ -4,7 +4,7 @@ from props import _score, C06
 
 LEVEL = "model_checking"
 
-TRAILS = [[], [0], [255, 1, 2, 3], [86, 97, 112, 111]]
+TRAILS = [[], [0], [255, 1, 2, 3], [86, 97, 112, 111], [1], [1, 1, 0], [2]]
 
 
 def strip(steps):
